@@ -396,8 +396,11 @@ func TestC07Deep(t *testing.T) {
 	cases := []c07Case{
 		{Kind: "repeat", Unit: legacyMagic, Count: 30000000, Conc: 1, Sizes: []int{4096}},
 		{Kind: "repeat", Unit: legacyMagic, Count: 3000000, Conc: 4, WriteTo: true},
-		{Kind: "repeat", Prefix: frameHdr, Unit: []byte{0, 0, 0, 0x80}, Count: 5000000, Suffix: []byte{0, 0, 0, 0}, Conc: 1, Sizes: []int{65536}},
-		{Kind: "repeat", Unit: []byte{0x5F, 0x2A, 0x4D, 0x18, 0, 0, 0, 0}, Count: 5000000, Suffix: append(append([]byte{}, frameHdr...), 0, 0, 0, 0), Conc: 1, Sizes: []int{4096}},
+		// (a goroutine stack may grow to 1 GB: a recursion of ~100-byte frames needs about 10^7 repetitions to exhaust it)
+		{Kind: "repeat", Prefix: frameHdr, Unit: []byte{0, 0, 0, 0x80}, Count: 12000000, Suffix: []byte{0, 0, 0, 0}, Conc: 1, Sizes: []int{65536}},
+		{Kind: "repeat", Unit: []byte{0x5F, 0x2A, 0x4D, 0x18, 0, 0, 0, 0}, Count: 25000000, Suffix: append(append([]byte{}, frameHdr...), 0, 0, 0, 0), Conc: 1, Sizes: []int{4096}},
+		{Kind: "repeat", Unit: []byte{0x50, 0x2A, 0x4D, 0x18, 1, 0, 0, 0, 0xAA}, Count: 12000000, Suffix: append(append([]byte{}, frameHdr...), 0, 0, 0, 0), Conc: 1, WriteTo: true},
+		{Kind: "repeat", Prefix: []byte{0x02, 0x21, 0x4C, 0x18}, Unit: []byte{1, 0, 0, 0, 0}, Count: 12000000, Conc: 1, Sizes: []int{4096}},
 		{Kind: "repeat", Prefix: frameHdr, Unit: []byte{0, 0, 0, 0x80}, Count: 200000, Suffix: []byte{0, 0, 0, 0}, Conc: 4, Sizes: []int{65536}},
 	}
 	for _, c := range cases {
